@@ -34,7 +34,8 @@ RECURSIVE SeqsUpTo(_, _)
 SeqsUpTo(S, n) == IF n = 0 THEN {<<>>} ELSE SeqsUpTo(S, n - 1) \cup {Append(q, x) : q \in SeqsUpTo(S, n - 1), x \in S}
 
 OneCell(c, v) == [x \in Cells |-> IF x = c THEN v ELSE None]
-AlgoMds == IF AlgoMeta THEN {NoMeta} \cup {OneCell(c, v) : c \in Cells, v \in Vals} ELSE {NoMeta}
+\* "inc": a stateful algorithm writes the successor of the value the service handed to it (VizierAtomic.EffMd)
+AlgoMds == IF AlgoMeta THEN {NoMeta} \cup {OneCell(c, v) : c \in Cells, v \in Vals \cup {"inc"}} ELSE {NoMeta}
 SuggestEnvs == [raise : {FALSE}, ps : SeqsUpTo(Params, MaxDeliver), md : AlgoMds]
           \cup [raise : {TRUE}, ps : {<<>>}, md : {NoMeta}]
 StopEnvs == [raise : {FALSE}, stop : BOOLEAN] \cup [raise : {TRUE}, stop : {FALSE}]
